@@ -125,9 +125,7 @@ class Alias:
         ):
             return getattr(instance, self.override_attr)
         try:
-            return (self.transform or (lambda x: x))(
-                self.__lookup_attr_path(instance, self._attr_path)
-            )
+            value = self.__lookup_attr_path(instance, self._attr_path)
         except AttributeError:
             if self.fallback is not MISSING:
                 from spec_classes.utils.mutation import protect_via_deepcopy
@@ -140,6 +138,9 @@ class Alias:
                 "appears to be self-referential. Please change the `attr` argument to point "
                 "to a different attribute."
             ) from e
+        # (Errors raised by the transform are the transform's own: the target
+        # exists, so no fallback applies.)
+        return self.transform(value) if self.transform else value
 
     def __set__(self, instance, value):
         if self.passthrough:
